@@ -187,6 +187,7 @@ def run(model: Model, rep: Report) -> None:
     r5.check(ok, site(uv), uv.qualname, "xi >= 0 -> xi ; otherwise xi + 2**n_bits", why=why)
     _decipher_walk(model, rep)
     _rc4(model, rep)
+    _handler_state(model, rep)
     _saslprep(model, rep)
 
 
@@ -297,6 +298,12 @@ def _decipher_walk(model: Model, rep: Report) -> None:
         elif fors:
             okl = False
             why = "list branch is a statement loop (re-derive the rule)"
+    if li is not None and okl:
+        early = [n for st in li.body for n in ast.walk(st) if isinstance(n, (ast.Return, ast.Raise, ast.Continue, ast.Break))]
+        first_is_walk = bool(li.body) and any(isinstance(c, ast.ListComp) for c in ast.walk(li.body[0]))
+        if early and not (len(li.body) == 1 and isinstance(li.body[0], ast.Return) and first_is_walk):
+            okl = False
+            why = f"the list branch has a way out before / beside the walk (`{unparse(early[0])[:60]}`): lists taken that way keep their strings encrypted"
     r6.check(okl, site(f, li) if li is not None else site(f), f.qualname, "every element of a list is walked (no type filter, no condition)", why=why + ": a string nested in an array inside an array (choice-field options, name-tree pairs) would stay encrypted")
     di = arms.get("dict")
     okd = False
@@ -314,6 +321,31 @@ def _decipher_walk(model: Model, rep: Report) -> None:
         calls = [c for n in st_.body for c in ast.walk(n) if isinstance(c, ast.Call) and (dotted(c.func) or "") == "decipher_all"]
         oks = any("".join(unparse(c.args[-1]).split()) == f"{x}.attrs" for c in calls)
     r6.check(oks, site(f, st_) if st_ is not None else site(f), f.qualname, "the dictionary of a stream is walked too (isinstance(x, PDFStream) -> x.attrs)", why="a stream object comes back from decipher_all untouched: the strings in its dictionary (/Params /ModDate and /CheckSum of an embedded file, the lookup string of an /Indexed colour space, /DecodeParms strings) stay encrypted")
+
+
+def _handler_state(model: Model, rep: Report) -> None:
+    """C10-R10: a security handler belongs to one document: its key, its crypt-filter table and its parameters are instance
+    state.  A mutable object created in the class body is one object for every handler of the process - the table the second
+    document fills is the table the first document decrypts with."""
+    from .c12 import global_writes, inventory
+
+    r = rep.rule("C10-R10", "EFFECTS", "security handlers keep nothing mutable at class level that their methods write: keys, crypt-filter tables and parameters are per document (instance attributes set in init_params / __init__)", 3)
+    inv = inventory(model)
+    mine = {k: v for k, v in inv.items() if k.startswith("pdfminer.pdfdocument.PDFStandardSecurityHandler")}
+    writes = [(f, n, c, how) for (f, n, c, how) in global_writes(model, inv) if c in mine]
+    for (f, n, c, how) in writes:
+        r.violation(site(f, n), f.qualname, f"{unparse(n)[:70]} : {how} on the class-level object {c.split('.')[-2]}.{c.split('.')[-1]}", "the object was created once in the class body and is shared by every handler of the process: opening a second encrypted document rewrites what the first one decrypts with")
+    n_cls = 0
+    for cq, ci in sorted(model.classes.items()):
+        if not cq.startswith("pdfminer.pdfdocument.PDFStandardSecurityHandler"):
+            continue
+        n_cls += 1
+        shared = sorted(k.split(".")[-1] for k in mine if k.rsplit(".", 1)[0] == cq)
+        written = sorted({c.split(".")[-1] for (_, _, c, _) in writes if c.rsplit(".", 1)[0] == cq})
+        if not written:
+            r.ok(f"pdfminer/pdfdocument.py:{ci.node.lineno}:{ci.name}", cq, f"{ci.name}: no class-level mutable object is written by a method" + (f" (class-level: {shared})" if shared else ""))
+    if n_cls < 3:
+        raise AnchorMissing("security handler classes not found")
 
 
 def _rc4(model: Model, rep: Report) -> None:
